@@ -378,10 +378,18 @@ struct PipeWorld : World {
 		auto r_peek = [&](size_t max) {
 			Bytes before = queue_bytes(dq);
 			decode_state sb = dq._state;
-			Bytes dst(max);
+			Bytes dst(max, 0xCC);
+			ssize_t pending = dq._state.data.msg;
 			ssize_t r; { Sut s; SUT_GUARD_ABORT(r = mpt_queue_peek(&dq, max, max ? dst.data() : 0)); }
 			check_queue(dq, "decode");
 			log.ev("R_PEEK %zu -> %zd", max, r);
+			if (pending >= 0 && r > 0 && max && R.received) {
+				// a complete message is waiting (received, not yet released): the preview is the start of that message
+				const Bytes &want = R.msgs[R.completed[R.received - 1]];
+				size_t n = std::min<size_t>(std::min<size_t>((size_t) r, max), want.size());
+				for (size_t i = 0; i < n; ++i) if (dst[i] != want[i]) fail("corrupt", "peek reports %zd bytes of the waiting message #%zu but byte %zu of the preview is %02x, the message has %02x there", r, R.received, i, dst[i], want[i]);
+				st.hit("probe:peek_at_waiting_message");
+			}
 			abstract(OP_RPEEK, r < 0 ? 0 : 1);
 			(void) before; (void) sb;
 		};
